@@ -110,7 +110,7 @@ def positive_instants(day):
 async def run(ctx):
     rng = ctx.rng
     E.install()
-    n_not = 2 if ctx.quick else 7
+    n_not = 3 if ctx.quick else 7
     # ---- phase 1: the complete positive set, with its nearest negatives ---------------------------------------
     d0, d1 = B.T_1996 // 86400, B.T_2038 // 86400
     for day in range(d0, d1):
@@ -151,7 +151,7 @@ async def run(ctx):
         ctx.nontrivial(["rnd", t])
         check_instant(ctx, rng, t, n_not, "random")
     # ---- phase 4: robustness - no string makes the constraints raise; fulfilled only if justified -------------
-    for i in range(ctx.budget(25_000, 2_000_000)):
+    for i in range(ctx.budget(60_000, 2_000_000)):
         s = hostile(rng)
         ctx.count("hostile_strings")
         check_hostile(ctx, s)
